@@ -47,3 +47,25 @@ Proof. exact steal_move_assign. Qed.
 Theorem C07_swap_exchanges_buffers :
   forall c t o, fl c <> FFCV -> b_swap c t o = (o, t).
 Proof. exact steal_swap. Qed.
+
+(* The buffer hand-over of the model is the code's: [b_move_assign] / [b_move_construct] / [b_swap] are proved equal (Gen/BaseTV_<S>.v)
+   to the definitions regenerated on every run by translator/base2coq.py from clang's AST of move_assign / move_construct /
+   swap_impl of SmallVectorBase, StdVectorBase and StaticVectorBase - words of both operands and the allocator calls, in order
+   (size types uint8_t and uint32_t). *)
+From Amc.Gen Require BaseTV_u8 BaseTV_u32.
+Theorem C07_move_assign_is_the_regenerated_one_u8 :
+  forall c, cM c = 255 -> 0 < cN c < 255 -> forall st ot, fl c = FSV -> Words.WInv 255 (cN c) st -> Words.WInv 255 (cN c) ot ->
+    BaseTV_u8.two c (Base_u8.sv_move_assign st ot (cN c)) = Some (b_move_assign c st ot).
+Proof. exact BaseTV_u8.sv_move_assign_tv. Qed.
+Theorem C07_move_assign_is_the_regenerated_one_u32 :
+  forall c, cM c = 4294967295 -> 0 < cN c < 4294967295 -> forall st ot, fl c = FSV -> Words.WInv 4294967295 (cN c) st -> Words.WInv 4294967295 (cN c) ot ->
+    BaseTV_u32.two c (Base_u32.sv_move_assign st ot (cN c)) = Some (b_move_assign c st ot).
+Proof. exact BaseTV_u32.sv_move_assign_tv. Qed.
+Theorem C07_vector_move_assign_is_the_regenerated_one :
+  forall c st ot, fl c = FVec -> BaseTV_u32.InRange st -> BaseTV_u32.InRange ot ->
+    BaseTV_u32.two c (Base_u32.std_move_assign st ot 0) = Some (b_move_assign c st ot).
+Proof. exact BaseTV_u32.std_move_assign_tv. Qed.
+Theorem C07_swap_is_the_regenerated_one :
+  forall c st ot, fl c = FSV -> BaseTV_u32.InRange st -> BaseTV_u32.InRange ot ->
+    BaseTV_u32.two c (Base_u32.sv_swap_impl st ot) = Some (fst (b_swap c st ot), snd (b_swap c st ot), []).
+Proof. exact BaseTV_u32.sv_swap_impl_tv. Qed.
